@@ -27,7 +27,7 @@ import (
 // so every analysis agrees on it.
 
 // InlineLimit bounds the expanded size (CFG nodes) of a callee that is expanded in place.
-const InlineLimit = 90
+const InlineLimit = 40
 
 // InlSite is one expanded call.
 type InlSite struct {
